@@ -92,7 +92,7 @@ func writeEvidence(prop, tier string, base uint64, cfg tierCfg, workers int, agg
 		fmt.Println("evidence: ", err)
 		return
 	}
-	dir := filepath.Join(verifDir, "evidence")
+	dir := filepath.Join(outDir(), "evidence")
 	os.MkdirAll(dir, 0o755)
 	if err := os.WriteFile(filepath.Join(dir, prop+".json"), b, 0o644); err != nil {
 		fmt.Println("evidence: ", err)
@@ -104,4 +104,14 @@ func rate(n int64, wall float64) int64 {
 		return 0
 	}
 	return int64(float64(n) / wall * 3600)
+}
+
+// outDir is /verif, or the scratch directory of a development run against a
+// copy of the library (VERIF_REPO), so that such runs never touch the evidence
+// and replay files of the registered checks.
+func outDir() string {
+	if d := os.Getenv("VERIF_OUT_DIR"); d != "" {
+		return d
+	}
+	return verifDir
 }
